@@ -354,7 +354,7 @@ static void family_overwrite(std::vector<hm::Scenario>& out, unsigned oracles) {
 // cursor API under concurrent writers (C10, second sentence)
 static void family_iscanc(std::vector<hm::Scenario>& out, unsigned oracles) {
     auto shapes = ykc::all_shapes();
-    const std::vector<std::string> use = {"B3", "B15", "I3_8_1_8", "I2_8_15", "L1one", "L1_3", "L1full", "L1I2_1_8", "L2", "I2_1_8", "I2_1_1", "I3_1_1_1", "B15Lhi", "B15Llo"};
+    const std::vector<std::string> use = {"B3", "B15", "I3_8_1_8", "I2_8_15", "L1one", "L1_3", "L1full", "L1I2_1_8", "L2", "I2_1_8", "I2_1_1", "I3_1_1_1", "B15Lhi", "B15Llo", "B15L15"};
     const std::set<std::string> quick_shapes = {"B15", "I3_8_1_8", "L1one", "L1full", "L1I2_1_8", "L1_3"};
     for (auto& sn : use) {
         const ykc::Shape* sh = ykc::find_shape(shapes, sn);
@@ -378,6 +378,16 @@ static void family_iscanc(std::vector<hm::Scenario>& out, unsigned oracles) {
             for (std::size_t b = a + 1; b < wops.size(); ++b) {
                 if (wops[a].key == wops[b].key) continue;
                 add(out, "iscanc", *sh, {{cursors[0]}, {wops[a], wops[b]}}, oracles, false, 2, 2);
+            }
+        }
+        if (sn == "B15L15") {
+            // both roots above / around the cursor are replaced while it stands inside layer 1: the layer root splits and the root of
+            // the whole tree splits (the cursor has to re-resolve its saved layer roots from the top)
+            for (std::size_t ci = 0; ci < cursors.size(); ++ci) {
+                bool q = ci == 0 || ci == 2; // quick: one preemption (the writer runs both inserts inside one pause of the cursor)
+                add(out, "iscanc", *sh, {{cursors[ci]}, {mk(PUT, sh->pal.at("newL"), 2), mk(PUT, sh->pal.at("new"), 2)}}, oracles, q, 1, 2);
+                add(out, "iscanc", *sh, {{cursors[ci]}, {mk(PUT, sh->pal.at("new"), 2), mk(PUT, sh->pal.at("newL"), 2)}}, oracles, q, 1, 2);
+                add(out, "iscanc", *sh, {{cursors[ci]}, {mk(PUT, sh->pal.at("newL"), 2)}, {mk(PUT, sh->pal.at("new"), 2)}}, oracles, false, 2, 2);
             }
         }
         if (sn == "I2_1_1" || sn == "I3_1_1_1") {
